@@ -28,8 +28,11 @@ type loopCtx struct {
 
 type Builder struct {
 	P             *Prog
-	forceMapChain bool  // build the comparison chain even for a rule-owned table (lookup compared with a constant)
-	forceMapValue *Term // that constant
+	forceMapChain bool // build the comparison chain even for a rule-owned table (lookup compared with a constant)
+	forceMapValue *Term
+	lastIter      map[types.Object]bool         // range keys of loops being built with the last iteration peeled off: are we in the peeled copy?
+	lastIterOf    map[types.Object]types.Object // range key -> the slice variable ranged over
+	lastIterProbe *[2]types.Object              // that constant
 	G             *Graph
 	cur           *Node
 	inst          *Instance
@@ -324,6 +327,10 @@ func (b *Builder) stmt(s ast.Stmt) {
 		b.loops = b.loops[:len(b.loops)-1]
 		b.start(done)
 	case *ast.RangeStmt:
+		if b.lastIterTest(s) {
+			b.peelLastIteration(s)
+			break
+		}
 		if _, ok := s.Value.(*ast.Ident); ok {
 			if fns := b.funcTable(s); fns != nil {
 				b.unrollFuncTable(s, fns)
@@ -989,6 +996,159 @@ func (b *Builder) grownInLoop(o *types.Var) bool {
 	return res
 }
 
+// isLastIterCmp: e compares the key of a range loop `for i, _ := range Y` (Y a plain variable)
+// with len(Y)-1. Returns the key's object.
+func (b *Builder) isLastIterCmp(e *ast.BinaryExpr) (types.Object, bool) {
+	for _, pr := range [][2]ast.Expr{{e.X, e.Y}, {e.Y, e.X}} {
+		id, ok := ast.Unparen(pr[0]).(*ast.Ident)
+		if !ok {
+			continue
+		}
+		obj := b.info.Uses[id]
+		if obj == nil {
+			continue
+		}
+		sub, ok := ast.Unparen(pr[1]).(*ast.BinaryExpr)
+		if !ok || sub.Op != token.SUB {
+			continue
+		}
+		if tv, ok := b.info.Types[sub.Y]; !ok || tv.Value == nil || tv.Value.ExactString() != "1" {
+			continue
+		}
+		call, ok := ast.Unparen(sub.X).(*ast.CallExpr)
+		if !ok || len(call.Args) != 1 {
+			continue
+		}
+		if fid, ok := call.Fun.(*ast.Ident); !ok || fid.Name != "len" {
+			continue
+		} else if _, isB := b.info.Uses[fid].(*types.Builtin); !isB {
+			continue
+		}
+		yid, ok := ast.Unparen(call.Args[0]).(*ast.Ident)
+		if !ok {
+			continue
+		}
+		if want, ok := b.lastIterOf[obj]; ok && b.info.Uses[yid] == want {
+			return obj, true
+		}
+		if b.lastIterProbe != nil && obj == b.lastIterProbe[0] && b.info.Uses[yid] == b.lastIterProbe[1] {
+			return obj, true
+		}
+	}
+	return nil, false
+}
+
+// lastIterTest: `for i, x := range Y` over a local slice variable Y that the body does not assign,
+// whose body compares i with len(Y)-1 and assigns neither i nor x: the loop over the whole list
+// with a special case for the last element, which is the loop over Y[:len(Y)-1] followed by the
+// body for the last element.
+func (b *Builder) lastIterTest(s *ast.RangeStmt) bool {
+	if s.Tok != token.DEFINE || s.Key == nil {
+		return false
+	}
+	kid, ok := s.Key.(*ast.Ident)
+	if !ok || kid.Name == "_" {
+		return false
+	}
+	yid, ok := ast.Unparen(s.X).(*ast.Ident)
+	if !ok {
+		return false
+	}
+	yobj, ok := b.info.Uses[yid].(*types.Var)
+	if !ok || isPkgLevel(yobj) {
+		return false
+	}
+	if _, isSlice := yobj.Type().Underlying().(*types.Slice); !isSlice {
+		return false
+	}
+	kobj := b.info.Defs[kid]
+	if kobj == nil {
+		return false
+	}
+	var vobj types.Object
+	if vid, ok := s.Value.(*ast.Ident); ok && vid.Name != "_" {
+		vobj = b.info.Defs[vid]
+	}
+	// only launch loops (a go statement in the body): the fan-out rules are phrased over the loop
+	// over the elements that get a goroutine; the chain walks of C03/C14, which also single out
+	// the last element, have their own two forms
+	found, bad, launches := false, false, false
+	b.lastIterProbe = &[2]types.Object{kobj, yobj}
+	ast.Inspect(s.Body, func(n ast.Node) bool {
+		switch x := n.(type) {
+		case *ast.GoStmt:
+			launches = true
+		case *ast.BinaryExpr:
+			if x.Op == token.EQL || x.Op == token.NEQ {
+				if _, ok := b.isLastIterCmp(x); ok {
+					found = true
+				}
+			}
+		case *ast.AssignStmt:
+			for _, l := range x.Lhs {
+				if id, ok := ast.Unparen(l).(*ast.Ident); ok {
+					if o := b.info.Uses[id]; o != nil && (o == kobj || o == yobj || (vobj != nil && o == vobj)) {
+						bad = true
+					}
+				}
+			}
+		case *ast.IncDecStmt:
+			if id, ok := ast.Unparen(x.X).(*ast.Ident); ok {
+				if o := b.info.Uses[id]; o != nil && (o == kobj || (vobj != nil && o == vobj)) {
+					bad = true
+				}
+			}
+		case *ast.UnaryExpr:
+			if x.Op == token.AND {
+				if id, ok := ast.Unparen(x.X).(*ast.Ident); ok {
+					if o := b.info.Uses[id]; o != nil && (o == kobj || o == yobj) {
+						bad = true
+					}
+				}
+			}
+		}
+		return true
+	})
+	b.lastIterProbe = nil
+	return found && launches && !bad
+}
+
+func (b *Builder) peelLastIteration(s *ast.RangeStmt) {
+	kid := s.Key.(*ast.Ident)
+	kobj := b.info.Defs[kid]
+	yobj := b.info.Uses[ast.Unparen(s.X).(*ast.Ident)]
+	if b.lastIter == nil {
+		b.lastIter, b.lastIterOf = map[types.Object]bool{}, map[types.Object]types.Object{}
+	}
+	b.lastIterOf[kobj] = yobj
+	y := b.expr(s.X)
+	last := mk("bin", "-", mk("call", "len", y), konst("1"))
+	// every element but the last
+	b.lastIter[kobj] = false
+	b.rangeStmtX(s, mk("slice", "", y, nil, last))
+	// the last element, if there is one
+	b.lastIter[kobj] = true
+	run, done := b.label(), b.label()
+	n := b.newNode(NBranch, s.Pos())
+	n.Cond = mk("bin", "!=", mk("call", "len", y), konst("0"))
+	n.Note = "peeled last iteration"
+	b.emit(n)
+	n.Succ = []*Node{run, done}
+	b.cur = nil
+	b.start(run)
+	b.assignVar(b.lhsVar(kid, true), last, s.Pos())
+	if vid, ok := s.Value.(*ast.Ident); ok && vid.Name != "_" {
+		b.assignVar(b.lhsVar(vid, true), mk("index", "", y, last), s.Pos())
+	}
+	b.loops = append(b.loops, loopCtx{brk: done, cont: done, label: b.takeLabel()})
+	b.stmt(s.Body)
+	b.jump(done)
+	b.loops = b.loops[:len(b.loops)-1]
+	b.start(done)
+	delete(b.lastIter, kobj)
+	delete(b.lastIterOf, kobj)
+}
+
 // rangeStmtX: the range loop s over the collection term x.
 func (b *Builder) rangeStmtX(s *ast.RangeStmt, x *Term) {
 	xt := b.tempVar("rng", nil)
@@ -1171,6 +1331,18 @@ func (b *Builder) typeSwitchStmt(s *ast.TypeSwitchStmt) {
 // cond lowers a boolean expression into branches with atomic conditions.
 func (b *Builder) cond(e ast.Expr, t, f *Node) {
 	e = ast.Unparen(e)
+	if be, ok := e.(*ast.BinaryExpr); ok && len(b.lastIter) > 0 && (be.Op == token.EQL || be.Op == token.NEQ) {
+		if obj, ok := b.isLastIterCmp(be); ok {
+			if inLast, known := b.lastIter[obj]; known {
+				if inLast == (be.Op == token.EQL) {
+					b.jump(t)
+				} else {
+					b.jump(f)
+				}
+				return
+			}
+		}
+	}
 	if tv, ok := b.info.Types[e]; ok && tv.Value != nil && tv.Value.Kind() == constant.Bool {
 		if constant.BoolVal(tv.Value) {
 			b.jump(t)
